@@ -4,13 +4,16 @@ EnvInt(name, default) == IF name \in DOMAIN IOEnv THEN atoi(IOEnv[name]) ELSE de
 Tier == EnvInt("VERIF_LTIER", 1)
 F(n, b, pb, pe) == [name |-> n, base |-> b, pb |-> pb, pe |-> pe]
 MCFamilies == << F("bel", "10", 0, 0), F("decibel", "10", 10, -1), F("neper", "e", 0, 0), F("octave", "2", 0, 0),
-                 F("semitone", "2", 12, -1), F("centioctave", "2", 10, -2), F("millibel", "10", 10, -3), F("kilobel", "10", 10, 3) >>
+                 F("semitone", "2", 12, -1), F("centioctave", "2", 10, -2), F("millibel", "10", 10, -3), F("kilobel", "10", 10, 3),
+                 \* "any base": logarithms nobody registered, with and without a prefix
+                 F("base-three", "3", 0, 0), F("deci-base-three", "3", 10, -1), F("base-sixteen", "16", 0, 0) >>
 R(n, k) == [name |-> n, k |-> k]
 \* power references (k = 1) and root-power references (k = 2), written in prefixed, unprefixed and non-SI units
 MCRefs == << R("1 W", 1), R("1 mW", 1), R("1 pW/m^2", 1), R("550 ft*lbf/s", 1), R("440 Hz", 1), R("1 V", 2), R("20 uPa", 2), R("1 psi", 2), R("0.5 kV", 2), R("1 m/s", 2),
             R("1 Pa", 2), R("1 hp", 1), R("1 kn", 2) >>     \* same number and dimension as "1 psi", "1 W", "1 m/s" in other units
 MCJ == IF Tier = 1 THEN {-40, -25, -12, -5, -1, 0, 1, 2, 7, 12, 24, 40} ELSE -40..40
-MCNext == TLCGet("level") = 1 /\ \E f \in 1..Len(MCFamilies), r \in 1..Len(MCRefs), j \in MCJ : Case(f, r, j)
+MCKinds == {"float", "Decimal"}
+MCNext == TLCGet("level") = 1 /\ \E f \in 1..Len(MCFamilies), r \in 1..Len(MCRefs), j \in MCJ, mk \in MCKinds : Case(f, r, j, mk)
 ExportCase == ev.op # "init" => PrintT("@@E " \o ToJson(ev))
 ExportSystem == ev.op = "init" => PrintT("@@SYS " \o ToJson([families |-> MCFamilies, refs |-> MCRefs]))
 Theorems == ev.op = "init" => (RoundTrip /\ ZeroAtReference /\ (Tier = 2 => Monotone))
